@@ -14,6 +14,7 @@ use futures::Sink;
 use futures::SinkExt;
 use futures::Stream;
 use futures::StreamExt;
+use futures::future::Either;
 use futures::stream::SplitSink;
 use http::HeaderName;
 use http::HeaderValue;
@@ -160,23 +161,34 @@ where
 
     let l_c_s = async {
         match l_c.forward(c_s).await {
-            Ok(_) => Err::<(), _>(relay::Result::Close(End::Local, End::Client)),
-            Err(e) => Err(relay::Result::Err(End::Local, End::Client, e)),
+            Ok(_) => relay::Result::Close(End::Local, End::Client),
+            Err(e) => relay::Result::Err(End::Local, End::Client, e),
         }
     };
 
     let s_c_l = async {
         match s_c.forward(c_l).await {
-            Ok(_) => Err::<(), _>(relay::Result::Close(End::Server, End::Client)),
-            Err(e) => Err(relay::Result::Err(End::Server, End::Client, e)),
+            Ok(_) => relay::Result::Close(End::Server, End::Client),
+            Err(e) => relay::Result::Err(End::Server, End::Client, e),
         }
     };
 
-    match tokio::try_join!(l_c_s, s_c_l) {
-        Ok(_) => unreachable!("should never reach here"),
-        Err(e) => e,
+    tokio::pin!(l_c_s, s_c_l);
+    match futures::future::select(l_c_s, s_c_l).await {
+        // the application has closed and all it wrote has been handed on, end of stream included: the server closes
+        // the connection as soon as it has passed that on. Until then the connection is kept, and what still comes
+        // from the server is read: dropped with anything unread (a TLS session ticket is enough) the connection
+        // would be reset, and the server would lose what it has not read yet of the bytes just sent
+        Either::Left((res @ relay::Result::Close(..), s_c_l)) => {
+            let _ = time::timeout(CLOSE_TIMEOUT, s_c_l).await;
+            res
+        }
+        Either::Left((res, _)) | Either::Right((res, _)) => res,
     }
 }
+
+/// How long a flow whose application has closed waits for the server to close the connection in turn.
+const CLOSE_TIMEOUT: Duration = Duration::from_secs(5);
 
 /// How long the UDP relay loop waits for one application's connection to the server (opening it, or writing to
 /// it) before it gives that datagram up: the loop serves every local application, a stalled peer must not hold it.
